@@ -93,7 +93,7 @@ def source_variant():
         t1 = open(os.path.join(vlib.REPO, "src/libvncserver/zrleencodetemplate.c")).read()
         t2 = open(os.path.join(vlib.REPO, "src/libvncserver/zrle.c")).read()
     except OSError:
-        return (0, 0, 0, 0)
+        return (0, 0, 0, 0, 0)
     m = re.search(r"zrleOutStreamWriteBytes\(os,\s*\(zrle_U8\s*\*\)data,\s*w\*h\*\((\w+)/8\)\)", t1)
     f1 = 1 if (m and m.group(1) == "BPPOUT") else 0
     m = re.search(r"fitsInLS3Bytes\s*=\s*\(\((.*?)<<", t2, flags=re.S)
@@ -105,7 +105,18 @@ def source_variant():
         f7 = 1 if ("bitsPerPixel" in cond and "trueColour" in cond) else 0
     except OSError:
         f7 = 0
-    return (f1, f2, f7, 1 if pack24_swaps() else 0)
+    return (f1, f2, f7, 1 if pack24_swaps() else 0, 1 if raw_splits() else 0)
+
+
+def raw_splits():
+    """notes/fix_C01_5.diff applied? (rfbSendRectEncodingRaw sends a line longer than the buffer in pieces)"""
+    try:
+        t = open(os.path.join(vlib.REPO, "src/libvncserver/rfbserver.c")).read()
+    except OSError:
+        return False
+    pos = t.find("\nrfbSendRectEncodingRaw(")
+    end = t.find("\n}\n", pos)
+    return pos >= 0 and "send buffer too small" not in t[pos:end]
 
 
 def pack24_swaps():
@@ -118,7 +129,7 @@ def pack24_swaps():
     return pos >= 0 and "Swap32" in t[pos:pos + 1200]
 
 
-VARIANT = (0, 0, 0, 0)
+VARIANT = (0, 0, 0, 0, 0)
 
 
 def sint32(v):
@@ -380,7 +391,7 @@ def case_lines(k, label, w, h, sbypp, cfmt, enc, levels, updates, corre=None, sf
     scr_line = "screen %d %d %d" % (w, h, sbypp)
     if sfmt is not None:
         scr_line += " %d %d %d %d %d %d %d %d %d" % (sf.depth, sf.be, sf.rmax, sf.gmax, sf.bmax, sf.rs, sf.gs, sf.bs, econ)
-    L = ["case %d %s" % (k, label), "variant %d %d %d %d" % VARIANT, scr_line]
+    L = ["case %d %s" % (k, label), "variant %d %d %d %d %d" % VARIANT, scr_line]
     if pad:
         L.append("pad 1")        # the framebuffer carries bits outside the colour masks (ignored by both drivers)
     if cfmt is not None:
@@ -1140,7 +1151,7 @@ def replay(ctx, path):
     VARIANT = source_variant()
     body = txt.split("script:\n", 1)[1].split("\n\n", 1)[0]
     lines = [l for l in body.split("\n") if l.strip()]
-    lines = [("variant %d %d %d %d" % VARIANT) if l.startswith("variant ") else l for l in lines]
+    lines = [("variant %d %d %d %d %d" % VARIANT) if l.startswith("variant ") else l for l in lines]
     cexe = vlib.build_harness("vdrv_enc", ["vdrv_enc.c"], extra_cflags=["-I", os.path.join(vlib.REPO, "src", "common")])
     vlib.prove(ctx, PROP_FILE, [EXTRACT])
     mexe = build_model()
